@@ -289,6 +289,9 @@ func (db *DB) getNonMergeFileID(dirPath string) datafile.FileID {
 	if err != nil {
 		return 0
 	}
+	defer func() {
+		_ = mergeFinishedFile.Close()
+	}()
 	return mergeFinishedFile.ReadMergeFinRecord()
 }
 
